@@ -47,6 +47,7 @@ def specHandler : Handler → Req → Trace → Res
   | .rewrite id p, r, t => .cont { r with path := p } (t ++ [ev id r])
   | .fail id st, r, t => .stop (.err (t ++ [ev id r]) st r)
   | .raise src, r, t => .stop (.err t (raiseStatus src r) r)
+  | .invoke _, r, t => .stop (.err t 0 r)
   | .answer src, r, t =>
     match src with
     | .empty => .stop (.done t (some (answerDefault r)))
@@ -126,6 +127,7 @@ def hCanFail : Handler → Bool
   | .rewrite _ _ => false
   | .fail _ _ => true
   | .raise _ => true
+  | .invoke _ => true
   | .answer src => match src with | .empty => false | .lit _ => false | _ => true
   | .sub rs hasErrs errs => if hasErrs then rsCanFail errs else rsCanFail rs
 def rsCanFail : List Route → Bool
@@ -146,6 +148,7 @@ def hOk : Handler → Bool → Bool
   | .fail _ _, _ => true
   | .raise _, _ => true
   | .answer _, _ => true
+  | .invoke _, _ => true
   | .sub rs hasErrs errs, ks => if hasErrs then ks && rsOk rs ks && rsOk errs ks else rsOk rs ks
 def rsOk : List Route → Bool → Bool
   | [], _ => true
